@@ -642,6 +642,11 @@ func (e *Env) call(n *ast.CallExpr) *Val {
 		v := arg(0)
 		t := e.typeExpr(n.Args[1])
 		return c.unbox(nil, app("ival", v.Term), t)
+	case "asiface":
+		// asiface(x, I): the interface value of type I holding x (x of a concrete type)
+		v := arg(0)
+		it := e.typeExpr(n.Args[1])
+		return c.makeIface(e.st, v, v.T, it)
 	case "ident":
 		// ident(x): an integer identifying the value x (equal values have equal identities)
 		v := arg(0)
